@@ -204,3 +204,25 @@ theorem le_nCells_of_shl_le (q : Qty) (w dd j : Nat) (hdd : dd ≤ q.maxDepth w)
   exact Nat.le_of_mul_le_mul_right h (Nat.two_pow_pos _)
 
 end Moc.Codec
+
+namespace Moc.Codec
+open Moc
+
+/-- Cells seen as cell ranges of length one (what the JSON writer emits: cells only). -/
+def unitCR (c : Cell) : CellRange := (c.1, c.2, c.2 + 1)
+
+theorem rangeOfCellRange_unit (q : Qty) (w : Nat) (c : Cell) : rangeOfCellRange q w (unitCR c) = rangeOfCell q w c := rfl
+
+theorem ordCR_of_ordCells (q : Qty) (w d : Nat) : ∀ (cs : List Cell) (lo hi : Nat), OrdCells q w d lo hi cs →
+    OrdCR q w d lo hi (cs.map unitCR) := by
+  intro cs
+  induction cs with
+  | nil => intro lo hi h; exact h
+  | cons c t ih =>
+    intro lo hi h
+    obtain ⟨a, b, c', e⟩ := h
+    refine ⟨a, by simp [unitCR], by rw [rangeOfCellRange_unit]; exact b, ?_⟩
+    rw [rangeOfCellRange_unit]
+    exact ih _ hi e
+
+end Moc.Codec
